@@ -414,7 +414,11 @@ pub fn oracle_file_api(sub: &str, x: &[u8], rank: u64, case: &dyn Fn() -> Value,
             if wa.is_err() || wa != wb {
                 bad("open-differs-from-parse", "Package::open(path) gives a different package than Package::parse on the same bytes".into());
             }
-            let _ = std::fs::remove_file(&out);
+            // the destination and the usual temporary-file names next to it already exist and are longer than the package
+            let junk = vec![0xa5u8; wa.as_ref().map(|v| v.len()).unwrap_or(0) + 1000];
+            for name in ["out.rpm", "out.rpm.tmp", "out.rpm~", "out.rpm.part", "out.rpm.new", "out.tmp", ".out.rpm.tmp", ".out.rpm.swp"] {
+                let _ = std::fs::write(dir.join(name), &junk);
+            }
             match catch(|| b.write_file(&out)) {
                 Ok(Ok(())) => {
                     let got = std::fs::read(&out).unwrap_or_default();
@@ -439,6 +443,54 @@ pub fn oracle_file_api(sub: &str, x: &[u8], rank: u64, case: &dyn Fn() -> Value,
         (Err(_), _) | (_, Err(_)) => {} // panics are C04's business
         (Ok(Ok(_)), Ok(Err(e))) => bad("open-rejects", format!("Package::open rejects a file whose bytes Package::parse accepts: {}", e)),
         (Ok(Err(e)), Ok(Ok(_))) => bad("open-accepts", format!("Package::open accepts a file whose bytes Package::parse rejects: {}", e)),
+    }
+    // the same bytes delivered through a named pipe: a path whose stat size says nothing about its content
+    if let Ok(Ok(a)) = &by_reader {
+        for meta_only in [false, true] {
+            let fifo = dir.join(if meta_only { "pipe-m" } else { "pipe-p" });
+            let c = std::ffi::CString::new(fifo.to_string_lossy().as_bytes()).expect("path");
+            if unsafe { libc::mkfifo(c.as_ptr(), 0o600) } != 0 {
+                crate::ctx::machinery("file api: mkfifo failed");
+            }
+            let data = x.to_vec();
+            let fpath = fifo.clone();
+            let producer = std::thread::spawn(move || {
+                use std::io::Write;
+                use std::os::unix::fs::OpenOptionsExt;
+                // wait (bounded) for the reader to open its end, then write everything
+                let t0 = std::time::Instant::now();
+                loop {
+                    match std::fs::OpenOptions::new().write(true).custom_flags(libc::O_NONBLOCK).open(&fpath) {
+                        Ok(mut f) => {
+                            unsafe {
+                                let fl = libc::fcntl(std::os::fd::AsRawFd::as_raw_fd(&f), libc::F_GETFL);
+                                libc::fcntl(std::os::fd::AsRawFd::as_raw_fd(&f), libc::F_SETFL, fl & !libc::O_NONBLOCK);
+                            }
+                            let _ = f.write_all(&data);
+                            return true;
+                        }
+                        Err(_) if t0.elapsed().as_secs() < 5 => std::thread::sleep(std::time::Duration::from_millis(1)),
+                        Err(_) => return false,
+                    }
+                }
+            });
+            let got: Result<Result<Vec<u8>, String>, _> = if meta_only {
+                catch(|| rpm::PackageMetadata::open(&fifo).map_err(|e| e.to_string()).and_then(|m| { let mut o = vec![]; m.write(&mut o).map(|_| o).map_err(|e| e.to_string()) }))
+            } else {
+                catch(|| rpm::Package::open(&fifo).map_err(|e| e.to_string()).and_then(|p| write_pkg(&p).map_err(|_| "write failed".to_string())))
+            };
+            let delivered = producer.join().unwrap_or(false);
+            if !delivered {
+                crate::ctx::machinery("file api: the library never opened the named pipe");
+            }
+            let want: Vec<u8> = if meta_only { let mut o = vec![]; let _ = a.metadata.write(&mut o); o } else { write_pkg(a).unwrap_or_default() };
+            match got {
+                Ok(Ok(g)) if g == want => {}
+                Ok(Ok(g)) => bad(if meta_only { "metadata-open-pipe-differs" } else { "open-pipe-differs" }, format!("opened through a named pipe the package writes as {} bytes, parsed from memory as {} bytes", g.len(), want.len())),
+                Ok(Err(e)) => bad("open-pipe-fails", format!("open through a named pipe fails for bytes that parse from memory: {}", e)),
+                Err(_) => {}
+            }
+        }
     }
     let _ = std::fs::remove_dir_all(&dir);
 }
